@@ -274,3 +274,334 @@ theorem C09_pushpull_framing_roundtrip (join : Bool) (sts : List (List Val)) (us
   simp only [h2, takeN_append, Option.map_some]
 
 end Swim.Msgpack
+
+namespace Swim.Msgpack
+
+/-! ### decoders only look at what they consume: extension and truncation -/
+
+theorem rd16_ext {bs r s : Bytes} {n : Nat} (h : rd16 bs = some (n, r)) : rd16 (bs ++ s) = some (n, r ++ s) := by
+  match bs, h with
+  | x :: y :: t, h => simp only [rd16, Option.some.injEq, Prod.mk.injEq] at h; simp [rd16, h.1, ← h.2]
+
+theorem rd32_ext {bs r s : Bytes} {n : Nat} (h : rd32 bs = some (n, r)) : rd32 (bs ++ s) = some (n, r ++ s) := by
+  match bs, h with
+  | x :: y :: z :: w :: t, h => simp only [rd32, Option.some.injEq, Prod.mk.injEq] at h; simp [rd32, h.1, ← h.2]
+
+theorem rd64_ext {bs r s : Bytes} {n : Nat} (h : rd64 bs = some (n, r)) : rd64 (bs ++ s) = some (n, r ++ s) := by
+  match bs, h with
+  | a :: b :: c :: d :: e :: f :: g :: i :: t, h =>
+    simp only [rd64, Option.some.injEq, Prod.mk.injEq] at h; simp [rd64, h.1, ← h.2]
+
+theorem takeN_ext {n : Nat} {bs a r s : Bytes} (h : takeN n bs = some (a, r)) : takeN n (bs ++ s) = some (a, r ++ s) := by
+  unfold takeN at h ⊢
+  by_cases hn : n ≤ bs.length
+  · simp only [hn, if_true, Option.some.injEq, Prod.mk.injEq] at h
+    have hn' : n ≤ (bs ++ s).length := by simp; omega
+    simp only [hn', if_true, Option.some.injEq, Prod.mk.injEq]
+    constructor
+    · rw [List.take_append_of_le_length hn]; exact h.1
+    · rw [List.drop_append_of_le_length hn]; rw [h.2]
+  · simp [hn] at h
+
+theorem decUint_ext {bs r s : Bytes} {n : Nat} (h : decUint bs = some (n, r)) :
+    decUint (bs ++ s) = some (n, r ++ s) := by
+  cases bs with
+  | nil => simp [decUint] at h
+  | cons t tl =>
+    simp only [decUint, List.cons_append] at h ⊢
+    split at h
+    · rename_i h1; simp only [h1, if_true]; simp only [Option.some.injEq, Prod.mk.injEq] at h; simp [h.1, ← h.2]
+    · rename_i h1
+      simp only [h1, if_false]
+      split at h
+      · rename_i h2
+        simp only [h2, if_true]
+        cases tl with
+        | nil => simp at h
+        | cons x r' => simp only [Option.some.injEq, Prod.mk.injEq] at h; simp [h.1, ← h.2]
+      · rename_i h2
+        simp only [h2, if_false]
+        split at h
+        · rename_i h3; simp only [h3, if_true]; exact rd16_ext h
+        · rename_i h3
+          simp only [h3, if_false]
+          split at h
+          · rename_i h4; simp only [h4, if_true]; exact rd32_ext h
+          · rename_i h4
+            simp only [h4, if_false]
+            split at h
+            · rename_i h5; simp only [h5, if_true]; exact rd64_ext h
+            · simp at h
+
+theorem decBool_ext {bs r s : Bytes} {v : Bool} (h : decBool bs = some (v, r)) :
+    decBool (bs ++ s) = some (v, r ++ s) := by
+  cases bs with
+  | nil => simp [decBool] at h
+  | cons t tl =>
+    simp only [decBool, List.cons_append] at h ⊢
+    split at h
+    · rename_i h1; simp only [h1, if_true]; simp only [Option.some.injEq, Prod.mk.injEq] at h; simp [h.1, ← h.2]
+    · rename_i h1
+      simp only [h1, if_false]
+      split at h
+      · rename_i h2; simp only [h2, if_true]; simp only [Option.some.injEq, Prod.mk.injEq] at h; simp [h.1, ← h.2]
+      · simp at h
+
+theorem decInt_ext {bs r s : Bytes} {n : Nat} (h : decInt bs = some (n, r)) :
+    decInt (bs ++ s) = some (n, r ++ s) := by
+  cases bs with
+  | nil => simp [decInt] at h
+  | cons t tl =>
+    simp only [decInt, List.cons_append] at h ⊢
+    split at h
+    · rename_i h1; simp only [h1, if_true]; simp only [Option.some.injEq, Prod.mk.injEq] at h; simp [h.1, ← h.2]
+    · rename_i h1
+      simp only [h1, if_false]
+      split at h
+      · rename_i h2
+        simp only [h2, if_true]
+        cases hr : rd16 tl with
+        | none => simp [hr] at h
+        | some p =>
+          obtain ⟨m, r'⟩ := p
+          simp only [hr] at h
+          rw [rd16_ext hr]
+          split at h
+          · rename_i hb; simp only [hb, if_true]; simp only [Option.some.injEq, Prod.mk.injEq] at h; simp [h.1, ← h.2]
+          · simp at h
+      · rename_i h2
+        simp only [h2, if_false]
+        split at h
+        · rename_i h3
+          simp only [h3, if_true]
+          cases hr : rd32 tl with
+          | none => simp [hr] at h
+          | some p =>
+            obtain ⟨m, r'⟩ := p
+            simp only [hr] at h
+            rw [rd32_ext hr]
+            split at h
+            · rename_i hb; simp only [hb, if_true]; simp only [Option.some.injEq, Prod.mk.injEq] at h; simp [h.1, ← h.2]
+            · simp at h
+        · rename_i h3
+          simp only [h3, if_false]
+          split at h
+          · rename_i h4
+            simp only [h4, if_true]
+            cases hr : rd64 tl with
+            | none => simp [hr] at h
+            | some p =>
+              obtain ⟨m, r'⟩ := p
+              simp only [hr] at h
+              rw [rd64_ext hr]
+              split at h
+              · rename_i hb; simp only [hb, if_true]; simp only [Option.some.injEq, Prod.mk.injEq] at h; simp [h.1, ← h.2]
+              · simp at h
+          · simp at h
+
+theorem decRaw_ext {bs a r s : Bytes} (h : decRaw bs = some (a, r)) :
+    decRaw (bs ++ s) = some (a, r ++ s) := by
+  cases bs with
+  | nil => simp [decRaw] at h
+  | cons t tl =>
+    simp only [decRaw, List.cons_append] at h ⊢
+    split at h
+    · rename_i h1; rw [if_pos h1]; exact takeN_ext h
+    · rename_i h1
+      rw [if_neg h1]
+      split at h
+      · rename_i h2
+        rw [if_pos h2]
+        cases hr : rd16 tl with
+        | none => simp [hr] at h
+        | some p =>
+          obtain ⟨m, r'⟩ := p
+          simp only [hr] at h
+          rw [rd16_ext hr]
+          exact takeN_ext h
+      · rename_i h2
+        rw [if_neg h2]
+        split at h
+        · rename_i h3
+          rw [if_pos h3]
+          cases hr : rd32 tl with
+          | none => simp [hr] at h
+          | some p =>
+            obtain ⟨m, r'⟩ := p
+            simp only [hr] at h
+            rw [rd32_ext hr]
+            exact takeN_ext h
+        · simp at h
+
+theorem decVal_ext {ty : Ty} {bs r s : Bytes} {v : Val} (h : decVal ty bs = some (v, r)) :
+    decVal ty (bs ++ s) = some (v, r ++ s) := by
+  cases ty with
+  | uint =>
+    simp only [decVal] at h ⊢
+    cases hd : decUint bs with
+    | none => simp [hd] at h
+    | some p => obtain ⟨n, r'⟩ := p; simp [hd] at h; simp [decUint_ext hd, h.1, ← h.2]
+  | int =>
+    simp only [decVal] at h ⊢
+    cases hd : decInt bs with
+    | none => simp [hd] at h
+    | some p => obtain ⟨n, r'⟩ := p; simp [hd] at h; simp [decInt_ext hd, h.1, ← h.2]
+  | str =>
+    simp only [decVal] at h ⊢
+    cases hd : decRaw bs with
+    | none => simp [hd] at h
+    | some p => obtain ⟨n, r'⟩ := p; simp [hd] at h; simp [decRaw_ext hd, h.1, ← h.2]
+  | bool =>
+    simp only [decVal] at h ⊢
+    cases hd : decBool bs with
+    | none => simp [hd] at h
+    | some p => obtain ⟨n, r'⟩ := p; simp [hd] at h; simp [decBool_ext hd, h.1, ← h.2]
+  | bytes =>
+    cases bs with
+    | nil => simp [decVal] at h
+    | cons t tl =>
+      simp only [decVal, List.cons_append] at h ⊢
+      split at h
+      · rename_i h1; rw [if_pos h1]; simp only [Option.some.injEq, Prod.mk.injEq] at h; simp [h.1, ← h.2]
+      · rename_i h1
+        rw [if_neg h1]
+        cases hd : decRaw (t :: tl) with
+        | none => simp [hd] at h
+        | some p =>
+          obtain ⟨n, r'⟩ := p
+          simp [hd] at h
+          have := decRaw_ext (s := s) hd
+          simp only [List.cons_append] at this
+          simp [this, h.1, ← h.2]
+
+theorem matchKey_ext {name bs r s : Bytes} (h : matchKey name bs = some r) :
+    matchKey name (bs ++ s) = some (r ++ s) := by
+  unfold matchKey at h ⊢
+  cases hd : decRaw bs with
+  | none => simp [hd] at h
+  | some p =>
+    obtain ⟨k, r'⟩ := p
+    simp only [hd] at h
+    rw [decRaw_ext hd]
+    by_cases hk : k = name
+    · simp only [hk, if_true, Option.some.injEq] at h ⊢; rw [h]
+    · simp [hk] at h
+
+/-- a match of the key never happens on the empty input, so it is decided by the bytes that are there -/
+theorem matchKey_none_ext_of_consumed {name bs : Bytes} (h : matchKey name bs = none) (hne : ∃ k r, decRaw bs = some (k, r)) (s : Bytes) :
+    matchKey name (bs ++ s) = none := by
+  obtain ⟨k, r, hd⟩ := hne
+  unfold matchKey at h ⊢
+  rw [decRaw_ext hd]
+  simp only [hd] at h
+  by_cases hk : k = name
+  · simp [hk] at h
+  · simp [hk]
+
+theorem matchKey_some_decRaw {name bs r : Bytes} (h : matchKey name bs = some r) : ∃ k r', decRaw bs = some (k, r') := by
+  unfold matchKey at h
+  cases hd : decRaw bs with
+  | none => simp [hd] at h
+  | some p => exact ⟨p.1, p.2, rfl⟩
+
+/-- a successful parse with map entries left to read starts with a key -/
+theorem decFields_key (fs : List Field) (k : Nat) (bs : Bytes) (res : List Val × Bytes) (hk : k ≠ 0)
+    (h : decFields fs k bs = some res) : ∃ key r, decRaw bs = some (key, r) := by
+  induction fs generalizing res with
+  | nil =>
+    cases k with
+    | zero => exact absurd rfl hk
+    | succ k' => simp [decFields] at h
+  | cons f fs ih =>
+    simp only [decFields, hk, if_false] at h
+    cases hm : matchKey f.name bs with
+    | some bs' => exact matchKey_some_decRaw hm
+    | none =>
+      simp only [hm] at h
+      by_cases ho : f.omitE = true
+      · simp only [ho, if_true] at h
+        cases hd : decFields fs k bs with
+        | none => simp [hd] at h
+        | some res' => exact ih res' hd
+      · simp [ho] at h
+
+theorem decFields_ext (fs : List Field) (k : Nat) (bs s : Bytes) (vs : List Val) (r : Bytes)
+    (h : decFields fs k bs = some (vs, r)) : decFields fs k (bs ++ s) = some (vs, r ++ s) := by
+  induction fs generalizing k bs vs r with
+  | nil =>
+    cases k with
+    | zero => simp only [decFields, Option.some.injEq, Prod.mk.injEq] at h ⊢; exact ⟨h.1, by rw [h.2]⟩
+    | succ k' => simp [decFields] at h
+  | cons f fs ih =>
+    by_cases hk : k = 0
+    · subst hk
+      simp only [decFields, if_true] at h ⊢
+      by_cases ho : f.omitE = true
+      · simp only [ho, if_true] at h ⊢
+        cases hd : decFields fs 0 bs with
+        | none => simp [hd] at h
+        | some res =>
+          obtain ⟨vs', r'⟩ := res
+          simp only [hd, Option.some.injEq, Prod.mk.injEq] at h
+          rw [ih 0 bs vs' r' hd]
+          simp [h.1, ← h.2]
+      · simp [ho] at h
+    · simp only [decFields, hk, if_false] at h ⊢
+      cases hm : matchKey f.name bs with
+      | some bs' =>
+        simp only [hm] at h
+        rw [matchKey_ext hm]
+        cases hv : decVal f.ty bs' with
+        | none => simp [hv] at h
+        | some p =>
+          obtain ⟨v, bs''⟩ := p
+          simp only [hv] at h
+          simp only [decVal_ext hv]
+          cases hd : decFields fs (k - 1) bs'' with
+          | none => simp [hd] at h
+          | some res =>
+            obtain ⟨vs', r'⟩ := res
+            simp only [hd, Option.some.injEq, Prod.mk.injEq] at h
+            rw [ih (k - 1) bs'' vs' r' hd]
+            simp [h.1, ← h.2]
+      | none =>
+        simp only [hm] at h
+        by_cases ho : f.omitE = true
+        · simp only [ho, if_true] at h
+          cases hd : decFields fs k bs with
+          | none => simp [hd] at h
+          | some res =>
+            obtain ⟨vs', r'⟩ := res
+            simp only [hd, Option.some.injEq, Prod.mk.injEq] at h
+            have hkey := decFields_key fs k bs (vs', r') hk hd
+            rw [matchKey_none_ext_of_consumed hm hkey s]
+            simp only [ho, if_true]
+            rw [ih k bs vs' r' hd]
+            simp [h.1, ← h.2]
+        · simp [ho] at h
+
+theorem decStruct_ext (fs : List Field) (bs s : Bytes) (vs : List Val) (r : Bytes)
+    (h : decStruct fs bs = some (vs, r)) : decStruct fs (bs ++ s) = some (vs, r ++ s) := by
+  cases bs with
+  | nil => simp [decStruct] at h
+  | cons t tl =>
+    simp only [decStruct, List.cons_append] at h ⊢
+    split at h
+    · rename_i h1; rw [if_pos h1]; exact decFields_ext fs _ tl s vs r h
+    · simp at h
+
+/-- **C13, truncation of a wire struct**: no strict prefix of the encoding of a well-formed message is
+accepted by the decoder - a message cut anywhere is rejected as a whole, never read as a shorter one. -/
+theorem C13_struct_truncation_rejected (k : Kind) (vs : List Val) (hwf : WF (schema k) vs) (p suffix : Bytes)
+    (h : encStruct (schema k) vs = p ++ suffix) (hs : suffix ≠ []) : decStruct (schema k) p = none := by
+  cases hd : decStruct (schema k) p with
+  | none => rfl
+  | some res =>
+    obtain ⟨vs', r'⟩ := res
+    have e := decStruct_ext (schema k) p suffix vs' r' hd
+    have rt := C12_msgpack_roundtrip k vs [] hwf
+    rw [List.append_nil, h, e] at rt
+    simp only [Option.some.injEq, Prod.mk.injEq, List.append_eq_nil_iff] at rt
+    exact absurd rt.2.2 hs
+
+end Swim.Msgpack
